@@ -10,6 +10,13 @@ siblings under seeded poll interleavings) on the trace-context runtime, built fo
 * `emit_traceparent::setup_with_sampler(sampler)` installed in an `AmbientSlot` (type-erased),
 * the same with `.and_emit_when(in_sampled_trace_filter(true))`.
 
+Every tree additionally runs on one of eight runtimes whose `TraceparentCtxt<ThreadLocalCtxt>` sits
+BEHIND a forwarding wrapper (`AssertInternal<_>`, `&_`, `Box<_>`, `Arc<_>`, `Option<_>`,
+`Box<dyn ErasedCtxt>`, and the stacks `Arc<AssertInternal<_>>`, `AssertInternal<Box<dyn ErasedCtxt>>`),
+same sampler, same oracle, signatures end in `wrapped:<type>`: a wrapper that drops a `Ctxt`
+method (e.g. `open_disabled`, which is what makes a sampler-rejected root an unsampled trace)
+falls back to the trait default.
+
 The sampler is a seeded table ("decision for the k-th call in this tree") that logs every call
 with the `SpanCtxt` it was shown. Trees additionally push headers with `Traceparent::push` /
 `emit_traceparent::push(tp, tracestate)` at the top level and around arbitrary children: headers
@@ -152,6 +159,88 @@ macro_rules! ambient_env {
 
 ambient_env!(EnvSetup, "setup_with_sampler-slot", SLOT3);
 ambient_env!(EnvSetupInSampled, "setup_with_sampler-slot+in-sampled-filter", SLOT4);
+
+// --- the trace context BEHIND every forwarding wrapper the crate offers ---------------------------
+// (a wrapper that drops one of the `Ctxt` methods falls back to the trait's default, e.g. a
+// rejected root whose frame is not opened with the inner `open_disabled` is no unsampled trace)
+
+type TpCtxt = TraceparentCtxt<ThreadLocalCtxt>;
+type DynCtxt = dyn emit::ctxt::ErasedCtxt + Send + Sync;
+
+/// `wrap_env!(Name, STATIC, "label", CtxtType, ctxt_expr, first_rng_value);`
+macro_rules! wrap_env {
+    ($name:ident, $st:ident, $label:expr, $C:ty, $ctxt:expr, $rng:expr) => {
+        static $st: LazyLock<Runtime<Routed, TraceparentFilter<SamplerFn>, $C, FakeClock, CountingRng>> = LazyLock::new(|| {
+            Runtime::build(
+                Routed,
+                TraceparentFilter::new_with_sampler(table_sampler as SamplerFn),
+                $ctxt,
+                clock(),
+                CountingRng::starting_at($rng),
+            )
+        });
+        impl_env!($name, $label, true, [Routed, TraceparentFilter<SamplerFn>, $C, FakeClock, CountingRng], &$st);
+    };
+}
+
+fn tp_ctxt() -> TpCtxt {
+    TraceparentCtxt::new(ThreadLocalCtxt::new())
+}
+
+static TPC_FOR_REF: TpCtxt = TraceparentCtxt::new(ThreadLocalCtxt::shared());
+
+wrap_env!(
+    EnvWrapAssert,
+    W_ASSERT,
+    "wrapped:AssertInternal<TraceparentCtxt<ThreadLocalCtxt>>",
+    emit::runtime::AssertInternal<TpCtxt>,
+    emit::runtime::AssertInternal(tp_ctxt()),
+    1u64 << 48
+);
+wrap_env!(EnvWrapRef, W_REF, "wrapped:&TraceparentCtxt<ThreadLocalCtxt>", &'static TpCtxt, &TPC_FOR_REF, (1u64 << 48) + (1 << 44));
+wrap_env!(EnvWrapBox, W_BOX, "wrapped:Box<TraceparentCtxt<ThreadLocalCtxt>>", Box<TpCtxt>, Box::new(tp_ctxt()), (1u64 << 48) + (2 << 44));
+wrap_env!(
+    EnvWrapArc,
+    W_ARC,
+    "wrapped:Arc<TraceparentCtxt<ThreadLocalCtxt>>",
+    std::sync::Arc<TpCtxt>,
+    std::sync::Arc::new(tp_ctxt()),
+    (1u64 << 48) + (3 << 44)
+);
+wrap_env!(
+    EnvWrapOption,
+    W_OPTION,
+    "wrapped:Option<TraceparentCtxt<ThreadLocalCtxt>>",
+    Option<TpCtxt>,
+    Some(tp_ctxt()),
+    (1u64 << 48) + (4 << 44)
+);
+wrap_env!(
+    EnvWrapBoxDyn,
+    W_BOXDYN,
+    "wrapped:Box<dyn ErasedCtxt>(TraceparentCtxt<ThreadLocalCtxt>)",
+    Box<DynCtxt>,
+    Box::new(tp_ctxt()) as Box<DynCtxt>,
+    (1u64 << 48) + (5 << 44)
+);
+wrap_env!(
+    EnvWrapArcAssert,
+    W_ARC_ASSERT,
+    "wrapped:Arc<AssertInternal<TraceparentCtxt<ThreadLocalCtxt>>>",
+    std::sync::Arc<emit::runtime::AssertInternal<TpCtxt>>,
+    std::sync::Arc::new(emit::runtime::AssertInternal(tp_ctxt())),
+    (1u64 << 48) + (6 << 44)
+);
+wrap_env!(
+    EnvWrapAssertBoxDyn,
+    W_ASSERT_BOXDYN,
+    "wrapped:AssertInternal<Box<dyn ErasedCtxt>>(TraceparentCtxt<ThreadLocalCtxt>)",
+    emit::runtime::AssertInternal<Box<DynCtxt>>,
+    emit::runtime::AssertInternal(Box::new(tp_ctxt()) as Box<DynCtxt>),
+    (1u64 << 48) + (7 << 44)
+);
+
+const N_WRAPPED: usize = 8;
 
 fn init_envs() {
     LazyLock::force(&RT1);
@@ -942,6 +1031,11 @@ fn eval<X: Env>(r: &mut Report, in_sampled: bool, seed: u64, index: u64, tree: &
     r.observe("groups-actually-interleaved", o.n_groups_interleaved);
     r.observe("nodes-with-explicit-trace-id", o.n_explicit);
     r.observe(&format!("trees:{}", X::NAME), 1);
+    if X::NAME.starts_with("wrapped:") {
+        r.observe("wrapped:trees", 1);
+        r.observe("wrapped:new-traces-rejected-by-the-sampler", o.n_new_unsampled);
+        r.observe("wrapped:spans-inside-an-unsampled-trace", o.n_spans_in_unsampled);
+    }
     r.observe("nodes", tree.count() as u64 - 1);
 
     let mut shape = Vec::new();
@@ -982,15 +1076,31 @@ fn eval_env(r: &mut Report, env: usize, seed: u64, index: u64, tree: &Node, tabl
         0 => eval::<EnvGeneric>(r, false, seed, index, tree, table),
         1 => eval::<EnvGenericInSampled>(r, true, seed, index, tree, table),
         2 => eval::<EnvSetup>(r, false, seed, index, tree, table),
-        _ => eval::<EnvSetupInSampled>(r, true, seed, index, tree, table),
+        3 => eval::<EnvSetupInSampled>(r, true, seed, index, tree, table),
+        4 => eval::<EnvWrapAssert>(r, false, seed, index, tree, table),
+        5 => eval::<EnvWrapRef>(r, false, seed, index, tree, table),
+        6 => eval::<EnvWrapBox>(r, false, seed, index, tree, table),
+        7 => eval::<EnvWrapArc>(r, false, seed, index, tree, table),
+        8 => eval::<EnvWrapOption>(r, false, seed, index, tree, table),
+        9 => eval::<EnvWrapBoxDyn>(r, false, seed, index, tree, table),
+        10 => eval::<EnvWrapArcAssert>(r, false, seed, index, tree, table),
+        _ => eval::<EnvWrapAssertBoxDyn>(r, false, seed, index, tree, table),
     }
 }
 
-const ENV_NAMES: [&str; 4] = [
+const ENV_NAMES: [&str; 4 + N_WRAPPED] = [
     "generic-runtime",
     "generic-runtime+in-sampled-filter",
     "setup_with_sampler-slot",
     "setup_with_sampler-slot+in-sampled-filter",
+    "wrapped:AssertInternal<TraceparentCtxt<ThreadLocalCtxt>>",
+    "wrapped:&TraceparentCtxt<ThreadLocalCtxt>",
+    "wrapped:Box<TraceparentCtxt<ThreadLocalCtxt>>",
+    "wrapped:Arc<TraceparentCtxt<ThreadLocalCtxt>>",
+    "wrapped:Option<TraceparentCtxt<ThreadLocalCtxt>>",
+    "wrapped:Box<dyn ErasedCtxt>(TraceparentCtxt<ThreadLocalCtxt>)",
+    "wrapped:Arc<AssertInternal<TraceparentCtxt<ThreadLocalCtxt>>>",
+    "wrapped:AssertInternal<Box<dyn ErasedCtxt>>(TraceparentCtxt<ThreadLocalCtxt>)",
 ];
 
 /// `c18 --repro captured-frame`: the smallest program that shows the captured-frame finding,
@@ -1060,7 +1170,7 @@ fn main() {
         match env {
             Some(e) => eval_env(&mut r, e, seed, index, &tree, &table),
             None => {
-                for e in 0..4 {
+                for e in 0..ENV_NAMES.len() {
                     eval_env(&mut r, e, seed, index, &tree, &table);
                 }
             }
@@ -1077,11 +1187,13 @@ fn main() {
         let (a, b) = if i % 2 == 0 { (0, 3) } else { (2, 1) };
         if cfg!(miri) {
             // seconds per tree under Miri: one runtime per tree, rotating over the four
-            eval_env(r, (i % 4) as usize, seed, i, &tree, &table);
+            eval_env(r, (i % (4 + N_WRAPPED as u64)) as usize, seed, i, &tree, &table);
             eprintln!("[c18/miri] tree {} ({} nodes) done at {:.1}s", i, tree.count() - 1, r.elapsed_s());
         } else {
             eval_env(r, a, seed, i, &tree, &table);
             eval_env(r, b, seed, i, &tree, &table);
+            // ... and on one of the runtimes whose trace context sits behind a forwarding wrapper
+            eval_env(r, 4 + (i % N_WRAPPED as u64) as usize, seed, i, &tree, &table);
         }
     });
 
